@@ -23,6 +23,8 @@ def run(chk, binary):
                 cmds = []
                 for _ in range(rng.randint(1, 3)):
                     cmds += ["-m", rng.choice(D.L.MOVES)]
+                    if rng.random() < 0.3:
+                        cmds += [rng.choice(["-n", "--next"])]        # closes a record - there is none: still nothing but motions
         elif r < 0.7:
             cmds = D.gen_cmds(rng, edit_only=True)
         else:
@@ -88,7 +90,7 @@ def run(chk, binary):
                 if b != init[nm]:
                     chk.violation("spec:backup does not hold the original bytes", {"argv": ob["argv"], "file": nm, "backup": repr(b), "original": repr(init[nm])})
         # (c) motion-only commands leave every file byte-identical
-        if all(a == "-m" or a in D.L.MOVES for a in sc["cmds"]):
+        if all(a in ("-m", "-n", "--next") or a in D.L.MOVES for a in sc["cmds"]):
             for nm in named:
                 if ob["final"].get(nm) != init[nm]:
                     chk.violation("spec:motion-only commands changed a file", {"argv": ob["argv"], "file": nm, "before": init[nm].decode(errors="replace"), "after": ob["final"].get(nm, b"").decode(errors="replace")})
